@@ -191,6 +191,31 @@ fn nonsym_case(g: &mut Gen, which: usize, amax: f64, step: f64, amin: f64) {
     g.count(&format!("nonsym_step/{}{}", tag, if az < amax || as_ < amax { "/backtracked" } else { "/full" }));
 }
 
+
+// ------------------------------------------------------------------ PSD step length (partial: per-call validation)
+fn psd_step_case(g: &mut Gen, S: &Mat, Z: &Mat, dS: &Mat, dZ: &Mat, amax: f64, tag: &str) {
+    let n = S.len();
+    let (s, z, ds, dz) = (svec(S), svec(Z), svec(dS), svec(dZ));
+    let input = json!({"n": n, "S": S, "Z": Z, "dS": dS, "dZ": dZ, "amax": amax});
+    let r = guarded(|| {
+        let mut c = vh::PSDTriangleCone::<f64>::new(n);
+        let ok = c.update_scaling(&s, &z, 1.0, vh::ScalingStrategy::PrimalDual);
+        let (az, as_) = c.step_length(&dz, &ds, &z, &s, &settings(0.8, 1e-4, 0.99), amax);
+        (ok, az, as_)
+    });
+    let Some((ok, az, as_)) = r else { g.sink.case("psd_step", input, "1%N".into(), &[tag, "panic"]); return; };
+    if !ok || !az.is_finite() || !as_.is_finite() {
+        g.sink.case("psd_step", input, "1%N".into(), &[tag, "nonfinite-or-refused"]);
+        return;
+    }
+    let coq = format!("(maxl [p_psd_step (-26) {n} {Z} {dZ} {am} {az}; p_psd_step (-26) {n} {S} {dS} {am} {as_}])",
+        n = n, Z = cdymat(Z), dZ = cdymat(dZ), S = cdymat(S), dS = cdymat(dS), am = cdy(amax), az = cdy(az), as_ = cdy(as_));
+    let mut inp = input;
+    inp["out"] = json!([az, as_]);
+    g.sink.case("psd_step", inp, coq, &[tag]);
+    g.count(&format!("psd_step/n{}/{}{}", n, tag, if az < amax || as_ < amax { "/bounded" } else { "/full" }));
+}
+
 // ------------------------------------------------------------------ composite
 #[derive(Clone)]
 enum Blk { Zero(usize), NN(usize), SOC(usize), Exp, Pow(f64) }
@@ -428,6 +453,31 @@ fn generate(g: &mut Gen, thorough: bool) {
             }
         }
     }
+    // --- PSD cone n = 1..5 (eigenvalue routine is LAPACK: validated per call, exact PD test)
+    if blas_shim::AVAILABLE {
+        for _ in 0..reps * 2 {
+            for n in 1..=5usize {
+                for dir in 0..5 {
+                    let amax = *g.rng.pick(&ALPHAS);
+                    let mag = *g.rng.pick(&[1.0, 1e3, 1e-3]);
+                    let S = psd_matrix(&mut g.rng, n, 0.3, mag);
+                    let Z = psd_matrix(&mut g.rng, n, 0.3, 1.0 / mag);
+                    let mk = |rng: &mut Rng, X: &Mat, m: f64| -> Mat {
+                        match dir {
+                            0 => psd_matrix(rng, n, 0.1, m),                          // inward
+                            1 => mat_scale(&psd_matrix(rng, n, 0.1, m), -3.0),         // outward
+                            2 => sym_matrix(rng, n, 3.0 * m),                          // indefinite
+                            3 => mat_scale(X, -*rng.pick(&[1.0, 2.0, 0.5])),           // straight to the apex
+                            _ => mat_scale(X, 0.0),                                    // zero
+                        }
+                    };
+                    let dS = mk(&mut g.rng, &S, mag);
+                    let dZ = mk(&mut g.rng, &Z, 1.0 / mag);
+                    psd_step_case(g, &S, &Z, &dS, &dZ, amax, ["inward", "outward", "indefinite", "to-apex", "zero"][dir]);
+                }
+            }
+        }
+    }
     // --- composite
     for k in 0..(if thorough { 240 } else { 60 }) {
         let nb = 1 + g.rng.below(5);
@@ -502,6 +552,10 @@ fn replay(g: &mut Gen, v: &Value) {
                                     inp.get("interior").and_then(|b| b.as_bool()).unwrap_or(true)),
         "backtrack" => backtrack_case(g, inp["kind"].as_u64().unwrap() as usize, inp["p"].as_f64().unwrap(), &f64_vec(&inp["dq"]), &f64_vec(&inp["q"]),
                                       inp["a0"].as_f64().unwrap(), inp["amin"].as_f64().unwrap(), inp["step"].as_f64().unwrap(), "replay"),
+        "psd_step" => {
+            let m = |k: &str| -> Mat { inp[k].as_array().unwrap().iter().map(|r| f64_vec(r)).collect() };
+            psd_step_case(g, &m("S"), &m("Z"), &m("dS"), &m("dZ"), inp["amax"].as_f64().unwrap(), "replay")
+        }
         _ => { g.sink.record(json!({"note": format!("replay of op {} re-runs the generator stream instead", op)})); generate(g, false); }
     }
 }
